@@ -1,9 +1,141 @@
-(* C20 - statement file (being built) *)
-From Coq Require Import List ZArith QArith Bool.
-From LW Require Import Base.Outcome Misc.Gps Misc.GpsSpec Misc.Eirp.
-From LWGen Require Import EirpGen.
+(* C20 - GPS-time conversion, LoRa airtime and TXParamSetup EIRP coding match
+   their definitions.  Statement file: each theorem is closed by [exact] of a
+   lemma proved in theories/Misc, followed by Print Assumptions.
+   Time values are Z nanoseconds since the Unix epoch (UTC); durations Z ns. *)
+From Coq Require Import List NArith ZArith QArith Qround Bool.
+From LW Require Import Base.Outcome Misc.Gps Misc.GpsSpec Misc.GpsProofs
+  Misc.Airtime Misc.AirtimeSpec Misc.AirtimeProofs Misc.Eirp Misc.EirpProofs.
+From LWGen Require Import LeapGen EirpGen.
 Import ListNotations.
+Open Scope Z_scope.
 
-Theorem C20_eirp_table : eirp_table = lorawan_eirp_table.
-Proof. reflexivity. Qed.
+(* ---------------- GPS time ---------------- *)
+(* utc_range t : |t - GPS epoch| <= 2^62 ns  (1833-11 .. 2126-02; covers 1980..2100)
+   dur_range d : |d| <= 4.6e18 ns (145 years) *)
+
+(* the dumped leap-second table is the published IERS list (each table instant is the
+   second before the step, 23:59:59), the dumped epoch is 1980-01-06 *)
+Theorem C20_table_published :
+  table_ns leap_table = map (fun s => ((s - 1) * 1000000000, 1000000000)) (map unix_of_civil iers_leap_dates)
+  /\ gps_epoch_ns = unix_of_civil (1980, 1, 6) * 1000000000.
+Proof. split; [exact table_published | exact epoch_published]. Qed.
+Print Assumptions C20_table_published.
+
+(* days_from_civil agrees with the calendar written the plain way on every day 1970-01-01 .. 2100-12-31 *)
+Theorem C20_days_from_civil_calendar :
+  calendar_ok (N.to_nat 47847) (1970, 1, 1) 0 = true /\ days_from_civil 2101 1 1 = 47847.
+Proof. exact days_from_civil_calendar. Qed.
+Print Assumptions C20_days_from_civil_calendar.
+
+(* UTC -> GPS -> UTC is the identity *)
+Theorem C20_utc_gps_utc : forall t, utc_range t -> from_gps (to_gps t) = t.
+Proof. exact utc_gps_utc. Qed.
+Print Assumptions C20_utc_gps_utc.
+
+(* the offset applied equals the published GPS-UTC for that instant *)
+Theorem C20_offset_published : forall t, utc_range t ->
+  to_gps t - (t - gps_epoch_ns) = gps_minus_utc t * 1000000000.
+Proof. exact offset_published. Qed.
+Print Assumptions C20_offset_published.
+
+(* strictly increasing *)
+Theorem C20_strict_mono : forall t1 t2, utc_range t1 -> utc_range t2 -> t1 < t2 -> to_gps t1 < to_gps t2.
+Proof. exact strict_mono. Qed.
+Print Assumptions C20_strict_mono.
+
+(* GPS -> UTC -> GPS is the identity except inside an inserted leap second ... *)
+Theorem C20_gps_utc_gps : forall d, dur_range d -> in_inserted_leap_second d = false ->
+  to_gps (from_gps d) = d /\ spec_to_gps (from_gps d) = d.
+Proof. exact gps_utc_gps_both. Qed.
+Print Assumptions C20_gps_utc_gps.
+
+(* ... where the reading comes back exactly one second later *)
+Theorem C20_gps_utc_gps_in_leap_second : forall d, dur_range d -> in_inserted_leap_second d = true ->
+  to_gps (from_gps d) = d + 1000000000.
+Proof. exact gps_utc_gps_in_leap. Qed.
+Print Assumptions C20_gps_utc_gps_in_leap_second.
+
+(* the code before commit "fix: gps leap-second offset applied one second early"
+   violated the offset clause and the GPS->UTC->GPS clause (kept as a record of finding C20-1) *)
+Theorem C20_orig_refuted :
+  (let t := 1341100799500000000 in
+   gps_minus_utc t = 15 /\ to_gps_orig t - (t - gps_epoch_ns) = 16 * 1000000000) /\
+  (let d := 1025136014500000000 in
+   in_inserted_leap_second d = false /\ to_gps_orig (from_gps_orig d) = d - 1000000000).
+Proof. exact orig_refuted. Qed.
+Print Assumptions C20_orig_refuted.
+
+(* ---------------- airtime ---------------- *)
+(* air_domain pl sf bw pre cr : 0<=pl<=255, 5<=sf<=12, bw in {125,250,500,812,1625} kHz, 0<=pre<=64, 1<=cr<=4 *)
+
+(* symbol count = AN1200.13 formula, for ALL payload sizes / SF / header / LDRO; error exactly for CR outside 1..4 *)
+Theorem C20_symbols_formula : forall pl sf cr header ldro,
+  payload_symbols pl sf cr header ldro =
+  if (1 <=? cr) && (cr <=? 4) then Ok (spec_npayload pl sf cr header ldro) else Err.
+Proof. exact symbols_formula. Qed.
+Print Assumptions C20_symbols_formula.
+
+(* the symbol duration used is the floor (in ns) of the formula's 2^SF / BW *)
+Theorem C20_symbol_duration_floor : forall sf bw, 5 <= sf <= 12 -> In bw bw_list ->
+  symbol_duration sf bw = Ok (Qfloor (spec_tsym sf bw)).
+Proof. exact symbol_duration_floor. Qed.
+Print Assumptions C20_symbol_duration_floor.
+
+(* time on air = formula exactly (in ns) for 125/250/500 kHz *)
+Theorem C20_airtime_formula_exact : forall pl sf bw pre cr header ldro,
+  air_domain pl sf bw pre cr -> In bw [125; 250; 500] ->
+  exists v, airtime pl sf bw pre cr header ldro = Ok v /\
+            (inject_Z v == spec_airtime pl sf bw pre cr header ldro)%Q.
+Proof. exact airtime_formula_exact. Qed.
+Print Assumptions C20_airtime_formula_exact.
+
+(* ... and for every listed bandwidth within the integer truncation of the code:
+   formula - (total symbols + 1) ns < result <= formula *)
+Theorem C20_airtime_formula : forall pl sf bw pre cr header ldro,
+  air_domain pl sf bw pre cr ->
+  exists v, airtime pl sf bw pre cr header ldro = Ok v /\
+  (spec_airtime pl sf bw pre cr header ldro - (spec_total_symbols pl sf pre cr header ldro + 1) < inject_Z v
+   /\ inject_Z v <= spec_airtime pl sf bw pre cr header ldro)%Q.
+Proof. exact airtime_formula_bound. Qed.
+Print Assumptions C20_airtime_formula.
+
+(* never decreases with the payload size *)
+Theorem C20_airtime_mono : forall pl1 pl2 sf bw pre cr header ldro,
+  air_domain pl1 sf bw pre cr -> air_domain pl2 sf bw pre cr -> pl1 <= pl2 ->
+  exists v1 v2, airtime pl1 sf bw pre cr header ldro = Ok v1 /\
+                airtime pl2 sf bw pre cr header ldro = Ok v2 /\ v1 <= v2.
+Proof. exact airtime_mono. Qed.
+Print Assumptions C20_airtime_mono.
+
+(* ---------------- EIRP ---------------- *)
+Theorem C20_eirp_table : eirp_table = [8; 10; 12; 13; 14; 16; 18; 20; 21; 24; 26; 27; 29; 30; 33; 36]%Q.
+Proof. exact eirp_table_is_lorawan. Qed.
 Print Assumptions C20_eirp_table.
+
+(* for every rational power >= 8 dBm (every finite float32 is one): the index decodes to the
+   largest table entry not exceeding the power, and the next entry (if any) exceeds it *)
+Theorem C20_eirp_floor : forall p : Q, (8 <= p)%Q ->
+  exists v, eirp_value (eirp_index p) = Ok v /\ In v lorawan_eirp_table /\ (v <= p)%Q /\
+            (forall w, In w lorawan_eirp_table -> (w <= p)%Q -> (w <= v)%Q) /\
+            (forall w, nth_error lorawan_eirp_table (S (N.to_nat (eirp_index p))) = Some w -> (p < w)%Q).
+Proof. exact eirp_floor. Qed.
+Print Assumptions C20_eirp_floor.
+
+(* below the first entry the index is 0, which decodes to 8 dBm (more than requested) *)
+Theorem C20_eirp_below : forall p : Q, (p < 8)%Q -> eirp_index p = 0%N /\ eirp_value (eirp_index p) = Ok 8%Q.
+Proof. exact eirp_below. Qed.
+Print Assumptions C20_eirp_below.
+
+Theorem C20_eirp_decode_all : forall idx, (idx < 256)%N ->
+  eirp_value idx = match nth_error lorawan_eirp_table (N.to_nat idx) with Some v => Ok v | None => Err end.
+Proof. exact eirp_decode_all. Qed.
+Print Assumptions C20_eirp_decode_all.
+
+(* non-vacuity: concrete inputs inside the hypotheses *)
+Example C20_example :
+  to_gps 1341100800000000000 = 1025136016000000000 /\            (* 2012-07-01 00:00:00 UTC *)
+  from_gps 1025136016000000000 = 1341100800000000000 /\
+  in_inserted_leap_second 1025136015500000000 = true /\
+  airtime 13 12 125 8 1 true false = Ok 1155072000 /\             (* airtime_test.go vector *)
+  eirp_index (27.5)%Q = 11%N.
+Proof. vm_compute. repeat split; reflexivity. Qed.
